@@ -46,8 +46,9 @@ pub struct CoseSignature {
 
 impl crate::CborSerializable for CoseSignature {}
 
-impl AsCborValue for CoseSignature {
-    fn from_cbor_value(value: Value) -> Result<Self> {
+impl CoseSignature {
+    /// Variant of `from_cbor_value` that tracks how many protected headers enclose this signature.
+    pub(crate) fn from_cbor_value_nested(value: Value, depth: usize) -> Result<Self> {
         let mut a = value.try_as_array()?;
         if a.len() != 3 {
             return Err(CoseError::UnexpectedItem("array", "array with 3 items"));
@@ -56,9 +57,15 @@ impl AsCborValue for CoseSignature {
         // Remove array elements in reverse order to avoid shifts.
         Ok(Self {
             signature: a.remove(2).try_as_bytes()?,
-            unprotected: Header::from_cbor_value(a.remove(1))?,
-            protected: ProtectedHeader::from_cbor_bstr(a.remove(0))?,
+            unprotected: Header::from_cbor_value_nested(a.remove(1), depth)?,
+            protected: ProtectedHeader::from_cbor_bstr_nested(a.remove(0), depth)?,
         })
+    }
+}
+
+impl AsCborValue for CoseSignature {
+    fn from_cbor_value(value: Value) -> Result<Self> {
+        Self::from_cbor_value_nested(value, 0)
     }
 
     fn to_cbor_value(self) -> Result<Value> {
